@@ -247,8 +247,14 @@ def run_value_pairs(rng, n, res: CaseResult, witness=False):
                 n1, n2 = {'class': P, 'kwargs': {'x': 1}}, {'class': P, 'kwargs': {'x': 2}}
                 pairs.append(({'class': O, 'kwargs': {'a': [n1, n2]}}, {'class': O, 'kwargs': {'a': [n2, n1]}}, 'obj'))
                 pairs.append(({'class': OS, 'kwargs': {'a': 1, 'limit': [3, 1, 2]}}, {'class': OS, 'kwargs': {'a': 1, 'limit': [1, 2, 3]}}, 'obj'))
-                res.count('object_value_pairs', 10)
-        for a, b, mode in pairs[:n + 4]:
+                # falsy but different values of a constructor argument (the object keeps `b` only as a private attribute)
+                f1, f2 = rng.sample([0, '', None, [], {}], 2)
+                pairs.append(({'class': O, 'kwargs': {'a': x, 'b': f1}}, {'class': O, 'kwargs': {'a': x, 'b': f2}}, 'obj'))
+                pairs.append(({'class': O, 'kwargs': {'a': [{'class': O, 'kwargs': {'a': 1, 'b': f1}}]}}, {'class': O, 'kwargs': {'a': [{'class': O, 'kwargs': {'a': 1, 'b': f2}}]}}, 'obj'))
+                pairs.append(({'class': OS, 'kwargs': {'a': f1, 'limit': f2}}, {'class': OS, 'kwargs': {'a': f2, 'limit': f1}}, 'obj'))
+                res.count('object_value_pairs', 13)
+                res.count('falsy_object_argument_pairs', 3)
+        for a, b, mode in pairs[:n + 16]:
             if mode == 'dflt':
                 try:
                     k1, k2 = key_with_default(a[0], a[1], tmp), key_with_default(b[0], b[1], tmp)
